@@ -135,7 +135,11 @@ def run(ctx):
             elif cls.startswith("insert-line"):
                 at = rng.choice([r["start"] for r in recs] + [len(raw)])
                 garbage = rng.choice([b"garbage", b"\xff\xfe\xfd", b"0" * 64 + b"\t{}", b"\t\t\t", b"{\"key\":1}",
-                                      rng.randbytes(rng.randint(1, 50)).replace(b"\n", b"x"), b"\r", b""])
+                                      rng.randbytes(rng.randint(1, 50)).replace(b"\n", b"x"), b"\r", b"",
+                                      # valid UTF-8 text whose multi-byte characters straddle every offset around 64
+                                      ("x" * rng.randint(0, 5) + rng.choice(["\u00e9", "\u4e2d", "\U0001F600"]) * 60).encode(),
+                                      ("a" * rng.randint(58, 70) + "\u00fc\u4e2d\U0001F600" * 4 + "\t{}").encode(),
+                                      ("\U0001F4A9" * 40).encode()])
                 ins = (b"\n" + garbage) if cls == "insert-line" else garbage
                 new = raw[:at] + ins + raw[at:]
                 cases.append((cls, (at, len(ins)), new, None))
